@@ -102,9 +102,19 @@ class Run:
                 o.contract = re.sub(r"\s+", " ", o.contract).strip()[:600]
             if not fr.ok:
                 kinds = [k for k, _, _ in fr.errors]
+                # lost proof *hints* only: a `bodysub`/`sigsub`/`lift-nested` rewrite that no longer matches means the
+                # text it adapts is gone, so nothing needs adapting (if something does, Verus rejects the file and the
+                # unit is undecided as an unsupported construct)
+                lost_here = [an for fn_, an in (em.lost_anchors if em is not None else []) if fn_ == fname
+                             and not an.startswith(("bodysub", "sigsub", "lift-nested"))]
                 if kinds and all(k == "rlimit" for k in kinds):
                     o.status = "undecided"
                     self.undecided.append((o.name, "rlimit"))
+                elif lost_here:
+                    # a proof hint of this function could not be placed (the statement it is anchored to is
+                    # gone): the failure may be a missing hint, not a broken property -> undecided, never an alarm
+                    o.status = "undecided"
+                    self.undecided.append((o.name, "lost-anchor(%s)" % "; ".join(lost_here)))
                 else:
                     o.status = "failed"
                     o.kind = "; ".join(sorted(set(k for k in kinds if k != "rlimit")))
